@@ -329,7 +329,9 @@ func refererMatchesHost(c fiber.Ctx, trustedOrigins []string, trustedSubOrigins 
 		return nil
 	}
 
-	referer = refererURL.String()
+	// Only the origin of the referer takes part: a path or query must neither keep a
+	// trusted origin from matching nor make a foreign host look like a trusted one.
+	referer = refererURL.Scheme + "://" + refererURL.Host
 
 	for _, trustedOrigin := range trustedOrigins {
 		if referer == trustedOrigin {
